@@ -170,6 +170,11 @@ class Check(FormulaCheck):
             iso = a.isoformat() + 'T%02d:%02d:%02d' % (h, mi, s)
             for fn, exp in (('YEAR', a.year), ('MONTH', a.month), ('DAY', a.day), ('HOUR', h), ('MINUTE', mi), ('SECOND', s)):
                 self.chk(fn + '(iso-text)', '%s("%s")' % (fn, iso), exp)
+            if rnd.random() < 0.3:
+                # ISO text with a fraction of a second (1-6 digits, also just below the next second): the components are the ones written
+                frac = rnd.choice(['.5', '.25', '.123', '.999', '.9995', '.9996', '.99951', '.999999', '.000001', '.0004', '.4999', '.9', '.99'])
+                for fn, exp in (('YEAR', a.year), ('MONTH', a.month), ('DAY', a.day), ('HOUR', h), ('MINUTE', mi), ('SECOND', s)):
+                    self.chk(fn + '(iso-text-with-fraction)', '%s("%s%s")' % (fn, iso, frac), exp)
             if rnd.random() < 0.3 and 1901 <= a.year <= 9998:
                 # the same text with a zone designator (Z, +02:00, -0530 ...): still the components that are written
                 zone = rnd.choice(['Z', '+00:00', '+02:00', '-05:00', '+05:30', '-0330', '+1245', '-11:00', '+14:00'])
